@@ -270,6 +270,18 @@ func (en *Engine) finish(e *Exec, fc *FuncContract, res *UnitResult) {
 	for _, g := range gas {
 		hdr.WriteString(fmt.Sprintf("(assert (< %s nextRef0))\n", g))
 	}
+	// dynamic type tags of different Go types are different
+	var tags []string
+	seenTag := map[string]bool{}
+	for _, d := range e.decls {
+		if f := strings.Fields(d); len(f) > 1 && f[0] == "(declare-const" && strings.HasPrefix(f[1], "tag_") && !seenTag[f[1]] {
+			seenTag[f[1]] = true
+			tags = append(tags, f[1])
+		}
+	}
+	if len(tags) > 1 {
+		hdr.WriteString("(assert (distinct " + strings.Join(tags, " ") + "))\n")
+	}
 	// type invariants of the entry heaps: every slice/pointer stored in a pre-existing object is well formed
 	sliceWf := func(t string) string {
 		return fmt.Sprintf("(and (<= 0 (base %s)) (< (base %s) nextRef0) (= (off %s) 0) (<= 0 (len %s)) (<= (len %s) (cap %s)) (=> (= (base %s) 0) (= (cap %s) 0)))", t, t, t, t, t, t, t, t)
